@@ -270,15 +270,19 @@ def run(ctx):
             # trailing empty field: remove(len-1) under last().is_some_and(is_empty); nothing else removes
             scalls = vec_calls_on(pf, sl[0])
             snames = [n for _, _, n in scalls]
-            bad = [n for n in snames if n in ORDER_BREAKERS and n != "remove"]
+            # (`pop()` removes the last field, as `remove(len - 1)` does)
+            bad = [n for n in snames if n in ORDER_BREAKERS and n not in ("remove", "pop")]
             ctx.ob("R4", "fields-keep-order", not bad, "the split fields are modified with %s; only the final empty field may be removed" % bad, fn=pf, how="call sites on the field list")
-            rem = [(b, t) for b, t, n in scalls if n == "remove"]
+            rem = [(b, t, n) for b, t, n in scalls if n in ("remove", "pop")]
             ok = len(rem) == 1
             if ok:
-                b, t = rem[0]
-                io = prim.origin_of_operand(pf, t.args[1]).strip()
-                core = io.kids[0].strip() if io.k == "field" and io.kids else io
-                last_idx = core.k == "bin" and core.a in ("Sub", "SubWithOverflow") and [c.get("v") for c in core.consts()] == [1] and any(c.a["name"] == "len" for c in core.call_nodes())
+                b, t, n_ = rem[0]
+                if n_ == "pop":
+                    last_idx = True
+                else:
+                    io = prim.origin_of_operand(pf, t.args[1]).strip()
+                    core = io.kids[0].strip() if io.k == "field" and io.kids else io
+                    last_idx = core.k == "bin" and core.a in ("Sub", "SubWithOverflow") and [c.get("v") for c in core.consts()] == [1] and any(c.a["name"] == "len" for c in core.call_nodes())
                 gs = prim.dominating_guards(pf, b)
                 guard = False
                 for gd in gs:
@@ -308,7 +312,7 @@ def run(ctx):
                     return "push"
                 if c.endswith("_eprint"):
                     return "diag"
-                if prim.is_str_eq(t):
+                if prim.is_str_eq(t) or (n == "is_empty" and "str" in (t.callee or "")):
                     return "is_empty"
                 return None
             g = C.G(prim.event_graph(pf, role))
